@@ -493,8 +493,10 @@ theorem tie_tarTarfsLink : Generated.tarTarfsLink = (["parent := filepath.Dir(ne
   "if !anode.dir { return fmt.Errorf(\"parent is not a directory\") }",
   "target, err := m.getNode(oldname)",
   "if err != nil { return fs.ErrNotExist }",
+  "if target.dir { return &os.LinkError{Op: \"link\", Old: oldname, New: newname, Err: syscall.EPERM} }",
   "anode.mu.Lock()",
   "defer anode.mu.Unlock()",
+  "if isDotName(base) { return fs.ErrExist }",
   "if _, ok := anode.children[base]; ok { return fs.ErrExist }",
   "anode.children[base] = target",
   "target.linkCount++",
